@@ -32,8 +32,9 @@ def run_config(chk, tier, cfgname):
     chk.floor("dynamic-root-collect-impls", n, 2)
     slot_strong(chk, prog)
     typestate.apply(chk, "stash-adoption", "adopt", only=lambda r: r.pre["path"] == "DynamicRootSet::stash", aspects=("safety",))
-    slots.run_tables(chk, prog)
-    slots.explore(chk, prog, depth=7 if tier == "quick" else 9)
+    slots.run_tables(chk, prog, maxlen=3 if tier == "quick" else 4)
+    slots.explore(chk, prog, depth=7 if tier == "quick" else 10, max_live=3 if tier == "quick" else 4,
+                  max_handles=3 if tier == "quick" else 4)
     pairing(chk, prog)
     fetch_rules(chk, prog)
     c12.rebrand(chk, prog, cfgname)
